@@ -470,6 +470,7 @@ struct VfsResolver : public EntityResolver, public XMLEntityResolver, public DOM
 };
 
 // ---------------------------------------------------------------- DOM -> dump
+static bool g_dump_internal_subset = false;   // opt-in: also dump the text of the DOCTYPE's internal subset (line "DTI|...")
 inline void dom_dump(DOMNode* n, Dump& d, bool nsmode) {
     switch (n->getNodeType()) {
     case DOMNode::DOCUMENT_NODE:
@@ -479,6 +480,7 @@ inline void dom_dump(DOMNode* n, Dump& d, bool nsmode) {
     case DOMNode::DOCUMENT_TYPE_NODE: {
         DOMDocumentType* dt = (DOMDocumentType*)n;
         d.add("DT|" + esc16(dt->getName()) + "|" + esc16(dt->getPublicId()) + "|" + esc16(dt->getSystemId()));
+        if (g_dump_internal_subset && dt->getInternalSubset()) d.add("DTI|" + esc16(dt->getInternalSubset()));
         DOMNamedNodeMap* nm = dt->getNotations();
         std::vector<std::string> ls;
         for (XMLSize_t i = 0; nm && i < nm->getLength(); i++) {
